@@ -290,7 +290,7 @@ fn c08_roundtrip_coinbase_prevout() {
 }
 
 //@ harness: c08_roundtrip_unblinded_output_with_nonce class=B tier=quick bound="as c08_roundtrip_1in_1out (no issuance), output has explicit value+asset, empty witness and a Confidential nonce (symbolic key; libsecp key comparison through the assumed model)" timeout=900
-//@ clause: round trip for an unblinded output that carries a nonce (payment to a confidential address before blinding): the extracted output has the same nonce (EXPECTED to fail — known finding: from_txout stores the nonce as blinding_key, extract_tx only emits ecdh_pubkey)
+//@ clause: round trip for an unblinded output that carries a nonce (payment to a confidential address before blinding): the extracted output has the same nonce (defect D17, repaired by e2f5c11: from_txout stores the nonce as blinding_key, extract_tx only emitted ecdh_pubkey)
 #[kani::proof]
 #[kani::unwind(3)]
 #[kani::stub(zffi::secp256k1_ec_pubkey_cmp, model_ec_pubkey_cmp)]
